@@ -155,6 +155,10 @@ func errKind(err error) int {
 		return 11
 	case strings.Contains(s, "invalid command"):
 		return 12
+	case strings.Contains(s, "token too long"):
+		return 13
+	case strings.Contains(s, "no route definitions"):
+		return 14
 	}
 	return 10
 }
@@ -364,8 +368,6 @@ func (e *env) excluded() string {
 	switch {
 	case e.nonASCII:
 		return "non-ASCII byte in the text (the parser model is ASCII)"
-	case e.longLine:
-		return "line of 60000 bytes or more (bufio.Scanner token limit is outside the parser model)"
 	case e.nan:
 		return "NaN weight (no exact value; not representable in the command-layer model)"
 	case e.weightCmdExtreme:
@@ -891,7 +893,35 @@ func buildCases(run *vh.Run) {
 		}
 		textCase(run, class, joinLines(r, out), 4)
 	}
-	// very long lines and non-ASCII: outside the model, must still not crash
+	// lines around bufio.Scanner's token limit (65536 bytes incl. a trailing \r): modelled since 5dd66bf
+	lineOf := func(n int) string {
+		pre, post := "route add ", " b.test/ http://10.0.0.2:80/"
+		return pre + strings.Repeat("x", n-len(pre)-len(post)) + post
+	}
+	first, last := "route add svc-a a.test/ http://10.0.0.1:80/", "route add svc-c c.test/ http://10.0.0.3:80/"
+	// at the limit: rejected (the model does not parse the long line: cheap to evaluate)
+	textCase(run, "long-line-boundary", first+"\n"+lineOf(65536)+"\n"+last, 2)
+	textCase(run, "long-line-boundary", first+"\n"+lineOf(65536), 2)
+	textCase(run, "long-line-boundary", first+"\n"+lineOf(65535)+"\r\n"+last, 2)
+	textCase(run, "long-line-boundary", first+"\n#"+strings.Repeat("y", 65535)+"\n"+last, 2)
+	textCase(run, "long-line-boundary", first+"\n"+strings.Repeat(" ", 65536)+"\n"+last, 2)
+	// one byte below: accepted, complete table.  C05's trim_space / drop_cr are quadratic (list
+	// reversal), about 4 minutes per such line under vm_compute: compared with the model in the thorough
+	// tier only, judged directly here
+	for i, text := range []string{first + "\n" + lineOf(65535) + "\n" + last, first + "\n" + lineOf(65535), first + "\n" + lineOf(65534) + "\r\n" + last} {
+		if run.Thorough() && i == 0 {
+			textCase(run, "long-line-below-limit", text, 1)
+			continue
+		}
+		var t route.Table
+		var err error
+		p, v := vh.Recover(func() { t, err = route.NewTable(bytes.NewBufferString(text)) })
+		if p || err != nil || t["a.test"] == nil || t["b.test"] == nil || (i != 1 && t["c.test"] == nil) {
+			run.Violation(run.NextID(), fmt.Sprintf("a configuration with a line of 65535 bytes (one below bufio.Scanner's limit) was not accepted completely: panic=%v err=%v hosts=%d", v, err, len(t)), i)
+		}
+	}
+	textCase(run, "long-line-boundary", "rout x\n"+lineOf(65536)+"\n"+last, 1)
+	textCase(run, "long-line-boundary", lineOf(65537)+"\nrout x\n", 1)
 	longLineCase(run)
 	textCase(run, "long-line", "route add svc-a a.test/ http://10.0.0.1:80/\nroute add "+strings.Repeat("x", 70000)+" a.test/ http://10.0.0.1:80/\nroute add svc-b b.test/ http://10.0.0.2:80/", 2)
 	textCase(run, "non-ascii", "route add svc-ä a.test/ http://10.0.0.1:80/ weight NaN ", 2)
@@ -1021,11 +1051,17 @@ func customCase(run *vh.Run, class string, defs []route.RouteDef) {
 		}
 		return
 	}
-	run.Add(class, vh.App("CCustom", e.coq(), vh.List(terms), impl, vh.List(looks)), human)
+	run.Add(class, vh.App("CCustom", e.coq(), vh.Some(vh.List(terms)), impl, vh.List(looks)), human)
 }
 
 func customCases(run *vh.Run) {
 	r := run.Rng
+	{ // NewTableCustom(nil): what a poll body `null` decodes to
+		buildInput = "NewTableCustom(nil)"
+		impl, _, human, _ := observeBuild(r, func() (route.Table, error) { return route.NewTableCustom(nil) }, 0)
+		human["defs"] = "nil pointer"
+		run.Add("custom-nil-pointer", vh.App("CCustom", newEnv().coq(), vh.None, impl, "[]"), human)
+	}
 	customCase(run, "custom-empty-src", []route.RouteDef{{Cmd: route.RouteAddCmd, Service: "s", Src: "", Dst: "http://h/"}})
 	customCase(run, "custom-empty-src", []route.RouteDef{{Cmd: route.RouteWeightCmd, Service: "s", Src: "", Weight: 0.5}})
 	customCase(run, "custom-empty-src", []route.RouteDef{{Cmd: route.RouteAddCmd, Service: "s", Src: "a.test/", Dst: "http://h/"}, {Cmd: route.RouteDelCmd, Service: "s", Src: "", Dst: "http://h/"}})
@@ -1111,6 +1147,7 @@ func genWatchScript(r *rand.Rand, si int, crash bool) watchScript {
 	}
 	big := si%5 == 4 && !crash
 	emptied := si%5 == 2 && !crash
+	longl := si%20 == 3 && !crash
 	for k := 0; k < n; k++ {
 		man := r.Intn(5) < 2
 		var t string
@@ -1122,6 +1159,10 @@ func genWatchScript(r *rand.Rand, si int, crash bool) watchScript {
 			t = pick(r, []string{"", "# nothing left", "\n\n", "// none\n   "})
 			man = k == 2
 			sc.class = "watch-valid-empty-valid"
+		case longl && k == 1:
+			// a line the scanner cannot hold: the update is rejected, the last good table stays
+			t = "route add svc-a a.test/ http://10.0.0.1:80/\nroute add " + strings.Repeat("x", 65536+r.Intn(3)) + " b.test/ http://10.0.0.2:80/\nroute add svc-c c.test/ http://10.0.0.3:80/"
+			sc.class = "watch-long-line"
 		case big && k == 1:
 			t = bigTextEarlyError(r)
 			sc.class = "watch-big-text-early-error"
@@ -1326,13 +1367,26 @@ func loopCases(run *vh.Run) {
 
 	nullJob := len(jobs)
 	jobs = append(jobs, wJob{Kind: "custom", Docs: []string{
-		`!reset![{"cmd":"route add","service":"svc-a","src":"a.test/","dst":"http://10.0.0.1:80/"}]`, `null`}})
+		`!reset![{"cmd":"route add","service":"svc-a","src":"a.test/","dst":"http://10.0.0.1:80/"}]`, `null`, `{}`, `"routes"`, `42`, ` null `, `true`}})
 
 	lines, done, crashLog := runDriver(run, jobs)
 	if crashLog[nullJob] != "" {
 		run.Violation(run.NextID(), "custom backend: a poll body `null` crashed the process (NewTableCustom(nil) dereferences the nil definition list; no recover in the polling goroutine): "+crashLog[nullJob], "null")
-	} else if ls := lines[nullJob]; len(ls) != 2 || len(ls[1].Table) != 1 {
-		run.Violation(run.NextID(), "custom backend: a poll body `null` did not leave the active table alone", lines[nullJob])
+	} else if ls := lines[nullJob]; len(ls) != 7 {
+		run.Violation(run.NextID(), "custom backend driver: the null / non-array body job did not complete", lines[nullJob])
+	} else {
+		for k := 1; k < 7; k++ {
+			failed := false
+			for _, m := range ls[k].Msgs {
+				if strings.HasPrefix(m, "Error") {
+					failed = true
+				}
+			}
+			if !failed || len(ls[k].Table) != 1 {
+				run.Violation(run.NextID(), "custom backend: a poll body that is no definition list (null, object, string, number) was not rejected with the active table left alone",
+					map[string]interface{}{"body": jobs[nullJob].Docs[k], "reported": ls[k].Msgs, "table": ls[k].Table})
+			}
+		}
 	}
 	// a definition without "src" is an error (route: prefix must not be empty), whatever was polled before
 	if ls := lines[staleJob]; len(ls) == 2 {
@@ -1472,7 +1526,7 @@ func loopCases(run *vh.Run) {
 					prev = l.Table
 					continue // built on top of nothing but observed after a non-reset: compare only failures above
 				}
-				run.Add(cj.class[d], vh.App("CCustom", e.coq(), vh.List(terms), impl, "[]"),
+				run.Add(cj.class[d], vh.App("CCustom", e.coq(), vh.Some(vh.List(terms)), impl, "[]"),
 					map[string]interface{}{"defs": fmt.Sprintf("%+v", cj.defs[d]), "msgs": l.Msgs, "table": l.Table})
 			}
 			prev = l.Table
